@@ -1,0 +1,21 @@
+//go:build verif
+
+package nats
+
+import "github.com/resgateio/resgate/server/verifhook"
+
+func verifPoint(site string) { verifhook.Point(site) }
+
+// VerifPending returns the number of requests whose completion has neither
+// been delivered nor timed out yet.
+func (c *Client) VerifPending() int {
+	c.mu.Lock()
+	defer c.mu.Unlock()
+	n := 0
+	for _, rc := range c.mqReqs {
+		if rc.isReq {
+			n++
+		}
+	}
+	return n
+}
